@@ -45,6 +45,37 @@ def explore(ctx, depth):
     docrun.run_option_sets(ctx, cases, [{'enc': None, 'include': None, 'exclude': None}, {'enc': 'ekern', 'include': None, 'exclude': None}], sels,
                            'export with a spine selection is not the full export with the unselected columns deleted and all-null lines dropped',
                            'projection', nontriv=nt)
+    # the selection is a set of spines: any re-iterable collection that holds the same ids / types selects the same columns (list = reference);
+    # ids that name no spine (negative, beyond the last) select nothing
+    from kernpy.core.tokenizers import Encoding
+    for case in cases[:12 if depth == 'quick' else 120]:
+        if case.doc is None:
+            continue
+        hs = case.adoc['headers']
+        n = len(hs)
+        k = ctx.rng.randint(0, n)
+        ids = list(range(k))                       # a prefix, so that range(k) is the same selection
+        types = sorted(set(ctx.rng.sample(hs, ctx.rng.randint(1, n))))
+        ref_i = call(lambda: kp.dumps(case.doc, spine_ids=list(ids)))
+        ref_t = call(lambda: kp.dumps(case.doc, spine_types=list(types)))
+        ref_it = call(lambda: kp.dumps(case.doc, spine_ids=list(ids), spine_types=list(types), encoding=Encoding.eKern))
+        kinds = [('tuple', tuple), ('set', set), ('frozenset', frozenset), ('range', lambda x: range(len(x)) if x and isinstance(x[0], int) or not x else tuple(x)),
+                 ('dict keys', lambda x: {v: None for v in x}.keys()), ('dict', lambda x: {v: True for v in x})]
+        for name, mk in kinds:
+            got_i = call(lambda: kp.dumps(case.doc, spine_ids=mk(ids)))
+            got_t = call(lambda: kp.dumps(case.doc, spine_types=mk(types)))
+            got_it = call(lambda: kp.dumps(case.doc, spine_ids=mk(ids), spine_types=mk(types), encoding=Encoding.eKern))
+            ctx.seen({'text': case.text, 'clause': 'selection given as ' + name, 'ids': ids, 'types': types}, n >= 2)
+            for what_, got, ref in (('spine_ids', got_i, ref_i), ('spine_types', got_t, ref_t), ('both', got_it, ref_it)):
+                if got != ref:
+                    ctx.fail({'text': case.text, 'clause': 'selection given as ' + name, 'argument': what_, 'spine_ids': ids, 'spine_types': types},
+                             'the same selection given as another kind of collection exports differently', impl=got, expected=ref)
+        for extra in ([-1], [-n], [n], [n + 3, -2], [-1, -n - 1]):
+            got = call(lambda: kp.dumps(case.doc, spine_ids=list(ids) + extra))
+            ctx.seen({'text': case.text, 'clause': 'ids that name no spine', 'ids': ids + extra}, n >= 2)
+            if got != ref_i:
+                ctx.fail({'text': case.text, 'clause': 'ids that name no spine', 'spine_ids': ids + extra},
+                         'an id that names no spine (negative or beyond the last) changes the projection', impl=got, expected=ref_i)
     # the spine-type query = header line of the projection
     for case in cases:
         if case.doc is None:
